@@ -105,7 +105,7 @@ def report(prop, obs, tier, seed, wall, cfgsets, checker_cmd):
                 printed_known.add(key)
         else:
             violations.append(o)
-    rdir = os.path.join(VERIF, "replay", prop.id)
+    rdir = os.path.join(os.environ.get("AQV_REPLAY_DIR") or os.path.join(VERIF, "replay"), prop.id)
     for o in violations:
         os.makedirs(rdir, exist_ok=True)
         h = hashlib.sha1(o.key.encode()).hexdigest()[:12]
@@ -167,8 +167,10 @@ def report(prop, obs, tier, seed, wall, cfgsets, checker_cmd):
         "wall_s": round(wall, 2),
         "violations": len(violations),
     }
-    os.makedirs(os.path.join(VERIF, "evidence"), exist_ok=True)
-    with open(os.path.join(VERIF, "evidence", prop.id + ".json"), "w") as f:
+    # the self-test harness runs checks on deliberately broken trees: it must not overwrite the evidence of the real tree
+    edir = os.environ.get("AQV_EVIDENCE_DIR") or os.path.join(VERIF, "evidence")
+    os.makedirs(edir, exist_ok=True)
+    with open(os.path.join(edir, prop.id + ".json"), "w") as f:
         json.dump(ev, f, indent=1)
     print("%s: %d obligations (%d distinct, %d discharged), %d known finding(s), %d violation(s) [%s, %.1fs]" % (
         prop.id, len(obs), len(distinct), len(discharged), n_known, len(violations), tier, wall))
